@@ -619,6 +619,13 @@ func (obj *SparseInt8Vector) UnmarshalJSON(data []byte) error {
   if len(r.Index) != len(r.Value) {
     return fmt.Errorf("invalid sparse vector")
   }
+  seen := make(map[int]bool)
+  for _, k := range r.Index {
+    if k < 0 || k >= r.Length || seen[k] {
+      return fmt.Errorf("invalid sparse vector: index %d", k)
+    }
+    seen[k] = true
+  }
   *obj = *NewSparseInt8Vector(r.Index, r.Value, r.Length)
   return nil
 }
